@@ -393,7 +393,7 @@ func (rc *RegClient) ImageCheckBase(ctx context.Context, r ref.Ref, opts ...Imag
 	}
 	for i := range baseLayers {
 		if i >= len(layers) {
-			return fmt.Errorf("image has fewer layers than base image")
+			return fmt.Errorf("image has fewer layers than base image%.0w", errs.ErrMismatch)
 		}
 		if !layers[i].Same(baseLayers[i]) {
 			rc.slog.Debug("image layer changed",
@@ -430,7 +430,7 @@ func (rc *RegClient) ImageCheckBase(ctx context.Context, r ref.Ref, opts ...Imag
 	baseConfOCI := baseConf.GetConfig()
 	for i := range baseConfOCI.History {
 		if i >= len(confOCI.History) {
-			return fmt.Errorf("image has fewer history entries than base image")
+			return fmt.Errorf("image has fewer history entries than base image%.0w", errs.ErrMismatch)
 		}
 		if baseConfOCI.History[i].Author != confOCI.History[i].Author ||
 			baseConfOCI.History[i].Comment != confOCI.History[i].Comment ||
